@@ -1,0 +1,28 @@
+//go:build verif
+
+package lib
+
+import "sync/atomic"
+
+type verifHook struct {
+	f func(point string, subject any)
+}
+
+var verifHookPtr atomic.Pointer[verifHook]
+
+// SetVerifHook installs (or removes, with nil) the function called at
+// every VerifPoint. Only available with the "verif" build tag.
+func SetVerifHook(f func(point string, subject any)) {
+	if f == nil {
+		verifHookPtr.Store(nil)
+		return
+	}
+	verifHookPtr.Store(&verifHook{f: f})
+}
+
+// VerifPoint is a yield point used by the external verification harness.
+func VerifPoint(point string, subject any) {
+	if h := verifHookPtr.Load(); h != nil {
+		h.f(point, subject)
+	}
+}
